@@ -28,7 +28,7 @@ RULE = ("usage history of 1..3 calls drawn from {rootfinder, equilibrium, minimi
         "decreasing times), quad, mcquad (mh, _dummy1d), jac/hess products and dense form, solve(jac), solve (cg, bicgstab, gmres, broyden1, "
         "custom_exactsolve, exactsolve; optional E, M; task 'fallback': shifts equal to an eigenvalue of a diagonal/triangular A and float32 "
         "symeig/svd backward on diagonal matrices, which make the direct solve take its internally handled singular-matrix retry), symeig (exacteig, custom_exacteig, davidson; optional M), Interp1D, SQuad} x function "
-        "kind (pure, nn.Module flat/nested/tied, EditableModule with attributes/containers/held nn.Module, one and two siblings) or operator kind "
+        "rarely used documented options (verbose=True, tolerances, line search) x kind (pure, nn.Module flat/nested/tied, EditableModule with attributes/containers/held nn.Module, one and two siblings) or operator kind "
         "(user LinearOperator over attributes/aliases/containers/held module with 4 method subsets, or a fresh LinearOperator.m per call) x "
         "{forward; +backward; +create_graph backward and second backward}; objects built once, history repeated 2 (warm-up) + 2 + 3 times, results "
         "dropped. Non-trivial = at least one call of the history returned a tensor attached to an autograd graph (so a backward context exists); "
@@ -202,6 +202,35 @@ ALL_KINDS = gen.KINDS + R.EXTRA_KINDS
 
 
 @st.composite
+def xopts_st(draw, functional, method):
+    """rarely used documented options of the built-in methods: a per-call helper object that keeps a reference to itself only when
+    such an option is set (a bound method stored on its own instance, a closure over the progress printer) leaks the iterate"""
+    o = {}
+    if functional in ("rootfinder", "equilibrium", "minimize"):
+        if draw(st.booleans()):
+            o["verbose"] = True
+        if method in ("gd", "adam"):
+            if draw(st.booleans()):
+                o["f_tol"] = draw(st.sampled_from([0.0, 1e-3]))
+            if draw(st.booleans()):
+                o["x_tol"] = draw(st.sampled_from([0.0, 1e-3]))
+        else:
+            if draw(st.booleans()):
+                o["f_tol"] = 1e-3
+            if method in ("broyden1", "broyden2", "linearmixing") and draw(st.booleans()):
+                o["line_search"] = draw(st.booleans())
+    elif functional == "solve":
+        if method in ("cg", "bicgstab") and draw(st.booleans()):
+            o["verbose"] = True
+        if method in ("cg", "bicgstab", "gmres") and draw(st.booleans()):
+            o["rtol"] = 1e-3
+    elif functional == "symeig":
+        if method == "davidson" and draw(st.booleans()):
+            o["verbose"] = True
+    return o
+
+
+@st.composite
 def item_st(draw, tier="quick", functionals=None):
     functional = draw(st.sampled_from(functionals or (R.FCN_FUNCTIONALS + R.FCN_FUNCTIONALS + R.OP_FUNCTIONALS * 3 + R.MISC_FUNCTIONALS)))
     method = draw(st.sampled_from(R.METHODS[functional] + R.METHODS_C19_EXTRA.get(functional, [])))
@@ -213,6 +242,8 @@ def item_st(draw, tier="quick", functionals=None):
         r0 = draw(st.booleans())
         item["req"] = [r0, (not r0) or draw(st.booleans())]
         item["maxiter"] = draw(st.integers(1, 5 if tier == "quick" else 12))
+        if functional in ("rootfinder", "equilibrium", "minimize") and draw(st.integers(0, 3)) == 0:
+            item["xopts"] = draw(xopts_st(functional, method))
         if functional == "solve_ivp":
             item["nt"] = draw(st.integers(2, 4))
             item["tsdir"] = draw(st.sampled_from([1, 1, -1]))
@@ -231,6 +262,8 @@ def item_st(draw, tier="quick", functionals=None):
         item["maxiter"] = draw(st.integers(1, 5 if tier == "quick" else 12))
         item["useM"] = draw(st.booleans())
         item["freshM"] = draw(st.booleans())
+        if draw(st.integers(0, 3)) == 0:
+            item["xopts"] = draw(xopts_st(functional, method))
         if functional == "solve":
             item["useE"] = draw(st.booleans())
             item["ncols"] = draw(st.integers(1, 2))
